@@ -2,7 +2,7 @@
     (alpha = 1, beta1 = beta2 = eta, lambda = 1), after renaming vector dimensions
     to cue / outcome names by the injective maps that define the one-hot tables. *)
 From Coq Require Import ZArith List Bool Ring.
-From PV Require Import BinFmt RWSpec WHSpec WHOneHot.
+From PV Require Import Bytes BinFmt Store RWSpec RWExec RWProofs WHSpec WHExec WHOneHot WHOneHotKernel.
 Import ListNotations.
 
 Theorem C14_b2r_onehot :
@@ -39,8 +39,78 @@ Theorem C14_r2r_onehot :
 Proof. exact r2r_onehot. Qed.
 Print Assumptions C14_r2r_onehot.
 
+(** the same at the level of the kernel models on flat memory: fed one-hot tables, the Widrow-Hoff kernels leave in
+    the renamed cells exactly what the Rescorla-Wagner kernel leaves, for the trained rows and every pair of initial
+    memories that agree on the valid positions (what wh.wh and ndl.ndl are compared on by the check) *)
+Theorem C14_b2r_kernels_agree :
+  forall (R : Type) (rO rI : R) (radd rmul rsub : R -> R -> R) (ropp : R -> R),
+    ring_theory rO rI radd rmul rsub ropp (@eq R) ->
+  forall (ho : Z -> Z) eta n all start stop es m_wh m_rw o c,
+  (0 <= n < two32)%Z -> (forall a b, ho a = ho b -> a = b) ->
+  NoDup all -> Forall oko32 all ->
+  NoDup (map ho (slice all start stop)) -> Forall oko32 (map ho (slice all start stop)) ->
+  cues_ok (okc_n n) es -> outs_unique es ->
+  (forall o c, oko32 o /\ oko32 (ho o) -> okc_n n c -> kget R rO n m_wh (ho o) c = kget R rO n m_rw o c) ->
+  mem_z o (slice all start stop) = true -> oko32 o -> oko32 (ho o) -> okc_n n c ->
+  kget R rO n (b2r_events R rO rI radd rmul rsub (kstore R) (kget R rO n) (kset R n) eta (onehot R rO rI ho)
+                     (map ho (slice all start stop)) es m_wh) (ho o) c =
+  kget R rO n (k_learn_events R rO radd rmul rsub (rw_params R rI eta) n all start stop es m_rw) o c.
+Proof. exact b2r_kernels_agree. Qed.
+Print Assumptions C14_b2r_kernels_agree.
+
+Theorem C14_r2b_kernels_agree :
+  forall (R : Type) (rO rI : R) (radd rmul rsub : R -> R -> R) (ropp : R -> R),
+    ring_theory rO rI radd rmul rsub ropp (@eq R) ->
+  forall (hc : Z -> Z) eta n n' all start stop es m_wh m_rw o c,
+  (0 <= n < two32)%Z -> (0 <= n' < two32)%Z -> (forall a b, hc a = hc b -> a = b) ->
+  NoDup all -> Forall oko32 all ->
+  cues_ok (okc_n n) es -> cues_sat (fun c => okc_n n c /\ okc_n n' (hc c)) es ->
+  (forall o c, oko32 o -> okc_n n c /\ okc_n n' (hc c) -> kget R rO n' m_wh o (hc c) = kget R rO n m_rw o c) ->
+  mem_z o (slice all start stop) = true -> oko32 o -> okc_n n c -> okc_n n' (hc c) ->
+  kget R rO n' (r2b_events R rO radd rmul rsub (kstore R) (kget R rO n') (kset R n') eta eta rI (onehot R rO rI hc)
+                      (zrange 0 n') (slice all start stop) es m_wh) o (hc c) =
+  kget R rO n (k_learn_events R rO radd rmul rsub (rw_params R rI eta) n all start stop es m_rw) o c.
+Proof. exact r2b_kernels_agree. Qed.
+Print Assumptions C14_r2b_kernels_agree.
+
+Theorem C14_r2r_kernels_agree :
+  forall (R : Type) (rO rI : R) (radd rmul rsub : R -> R -> R) (ropp : R -> R),
+    ring_theory rO rI radd rmul rsub ropp (@eq R) ->
+  forall (hc ho : Z -> Z) eta n n' all start stop es m_wh m_rw o c,
+  (0 <= n < two32)%Z -> (0 <= n' < two32)%Z ->
+  (forall a b, hc a = hc b -> a = b) -> (forall a b, ho a = ho b -> a = b) ->
+  NoDup all -> Forall oko32 all ->
+  NoDup (map ho (slice all start stop)) -> Forall oko32 (map ho (slice all start stop)) ->
+  cues_ok (okc_n n) es -> cues_sat (fun c => okc_n n c /\ okc_n n' (hc c)) es -> outs_unique es ->
+  (forall o c, oko32 o /\ oko32 (ho o) -> okc_n n c /\ okc_n n' (hc c) ->
+               kget R rO n' m_wh (ho o) (hc c) = kget R rO n m_rw o c) ->
+  mem_z o (slice all start stop) = true -> oko32 o -> oko32 (ho o) -> okc_n n c -> okc_n n' (hc c) ->
+  kget R rO n' (r2r_events R rO radd rmul rsub (kstore R) (kget R rO n') (kset R n') eta (onehot R rO rI hc) (onehot R rO rI ho)
+                      (zrange 0 n') (map ho (slice all start stop)) es m_wh) (ho o) (hc c) =
+  kget R rO n (k_learn_events R rO radd rmul rsub (rw_params R rI eta) n all start stop es m_rw) o c.
+Proof. exact r2r_kernels_agree. Qed.
+Print Assumptions C14_r2r_kernels_agree.
+
 (** the hypothesis "outcomes unique within an event" is needed: summed outcome
     vectors count a repeated outcome twice, presence is binary *)
 Example C14_repeated_outcome_differs :
   tvec Z 0%Z Z.add (onehot Z 0%Z 1%Z (fun o => o)) [5%Z; 5%Z] 5%Z = 2%Z.
 Proof. reflexivity. Qed.
+
+(** non-vacuity of the kernel-level statements: two empty memories agree on every position, outcome o of the
+    Rescorla-Wagner side lives in row o + 10 of the Widrow-Hoff side; the table rows and the events below meet
+    every hypothesis of [C14_b2r_kernels_agree] *)
+Example C14_kernels_agree_nonvacuous :
+  let ho := fun o => (o + 10)%Z in
+  let es := [([0%Z; 1%Z], [2%Z]); ([1%Z], [0%Z; 1%Z])] in
+  (forall a b, ho a = ho b -> a = b) /\
+  NoDup (map ho (slice [0%Z; 1%Z; 2%Z] 0 3)) /\ outs_unique es /\ cues_ok (okc_n 2) es /\
+  (forall o c, kget Z 0%Z 2 (ZM.empty Z) (ho o) c = kget Z 0%Z 2 (ZM.empty Z) o c) /\
+  mem_z 1%Z (slice [0%Z; 1%Z; 2%Z] 0 3) = true.
+Proof.
+  cbv zeta. repeat split.
+  - intros a b H. now apply Z.add_cancel_r in H.
+  - vm_compute. repeat constructor; cbn; intuition discriminate.
+  - repeat constructor; cbn; intuition discriminate.
+  - repeat constructor; unfold okc_n; cbn; intuition discriminate.
+Qed.
